@@ -238,6 +238,9 @@ func propC13(c *Ctx, r *Report) {
 	r.Clauses = append(r.Clauses, "moved locals are re-initialised (E76): a pass that appends the local variables of one function to another builds, in a loop over the source function's locals, a store of each local's initial value for the place where the body is put")
 	c.runInlineLocalReinit(r, "inline.localreinit", inPkgs("ir", "dxil"))
 	r.floor("inline.localreinit", 1)
+	r.Clauses = append(r.Clauses, "return rewritten to break (E77): where a pass rewrites return to break and applies itself to loop and switch bodies, the package has (and consults) a predicate that finds a return inside such a construct")
+	c.runReturnBreakDepth(r, "return.breakdepth", inPkgs("ir", "dxil"))
+	r.floor("return.breakdepth", 1)
 	r.Clauses = append(r.Clauses, shallowWalkerClause)
 	c.runShallowWalker(r, "walker.shallow", inPkgs("ir", "dxil"), shallowWalkerExceptions)
 	r.floor("walker.shallow", 10)
